@@ -32,6 +32,7 @@ REQUIRED = [
     "fact_api_validate_checks", "fact_api_status_table", "fact_api_handler_steps", "api_signjws_200_only_by_key_id",
     "api_signjwt_200_only_by_key_id", "api_unknown_kid_is_400", "api_invalid_request_independent_of_store", "api_decrypt_200_only_by_key_id",
     "fact_dpop_sign_overwrites_jwk", "dpop_jwk_is_signing_key",
+    "fact_fs_list_callback", "fs_list_roundtrip", "fs_listed_name_shape", "fs_list_separator_not_checked",
 ]
 
 STORE_KEY_JWKS = {"ecPriv", "ec384Priv", "rsaPriv", "edPriv"}   # JWK kinds of the key types a key store can hold
@@ -181,6 +182,24 @@ def run(ctx):
                         names_rej += 1
             elif k == "kidmap":
                 distinct.add(("kidmap", op["prefix"]))
+            elif k == "listnames":
+                distinct.add(("ls", tuple(op.get("files") or [])))
+                # direct oracle: every key file <name>_private.pem of the tree is listed under <name>; every listed name is a
+                # proper prefix of a file's base name that ends in the entry type
+                ml = re.fullmatch(r"listnames \[([0-9a-f,]*)\]", line)
+                if not ml:
+                    found_violation |= ctx.violation("C03:fs:list-garbage", line[:200], "fs-list.jsonl", ops[i])
+                else:
+                    listed = [unhex(x) for x in ml.group(1).split(",") if x]
+                    bases = [unhex(x).split(b"/")[-1] for x in op.get("files") or []]
+                    sfx = b"private.pem"
+                    missing = [b_ for b_ in bases if b_.endswith(b"_" + sfx) and len(b_) > len(sfx) + 1 and b_[:-len(sfx) - 1] not in listed]
+                    invented = [n for n in listed if not any(b_.endswith(sfx) and b_[:len(b_) - len(sfx) - 1] == n and n for b_ in bases)]
+                    if missing or invented or len(listed) != len([b_ for b_ in bases if b_.endswith(sfx) and len(b_) > len(sfx) + 1]):
+                        esc += 1
+                        found_violation |= ctx.violation("C03:fs:list-%s" % ("misses-a-stored-key" if missing else "invents-a-key-name"),
+                                                         f"ListPrivateKeys over files {bases[:8]} returned {listed[:8]} (missing {missing[:3]}, not derived from a file {invented[:3]})",
+                                                         "fs-list.jsonl", ops[i])
             elif k == "entrypath":
                 distinct.add(("ep", op["dir"], op["kid"]))
             elif k == "save":
